@@ -403,6 +403,22 @@ def soc_members(tier='thorough'):
         a.st(a.le(x, 3.0))
 
     @reg
+    def soc_standardised_second_moment(a):
+        """Standardised second-moment lifting per scenario: (1/sigma_s^2) * square(z) <= u, E(u) <= 1 (scaled squares)."""
+        p = a.scen(2)
+        x = a.dvar(())
+        z = a.rvar(())
+        u = a.rvar(())
+        F = a.ambiguity()
+        a.supp(F, [0], a.le(0.25 * a.square(z), u), a.le(u, 9.0))
+        a.supp(F, [1], a.le(4.0 * a.square(z - 0.5), u), a.le(u, 9.0))
+        a.expt(F, None, a.le(a.Ez(u), 1.0))
+        a.prob(F, a.eq(p, A([0.5, 0.5])))
+        a.minsup(a.E(a.maxof(1.5 * (x - z), 2.0 * (z - x))), F)
+        a.st(a.ge(x, -3.0))
+        a.st(a.le(x, 6.0))
+
+    @reg
     def soc_mean_ball(a):
         """Box supports, the mean of an event constrained to a ball; event-wise decision."""
         p = a.scen(2)
@@ -715,6 +731,85 @@ def random_member(seed):
     return desc
 
 
+def random_soc_member(seed):
+    """Seeded dro member with conic supports / expectation sets: 1-2 scenarios, z in R^1..2, per scenario a (shifted, scaled)
+    ball possibly cut by a half-space, or the second-moment lifting square(z) <= u; mean information as a box, an equality or a
+    norm ball; objective E(max of 2-3 affine / bi-affine pieces) or bi-affine; an E-constraint and / or a plain robust row with
+    affine recourse."""
+    import random
+    r = random.Random(seed)
+    ns = r.choice([1, 2, 2])
+    lifted = r.random() < 0.35
+    nz = 1 if lifted else r.choice([1, 2, 2])
+    nx = r.choice([1, 2])
+    g = lambda: r.choice([-2, -1, -0.5, 0.5, 1, 1.5, 2])
+    cen = [[r.choice([-1, -0.5, 0, 0.5, 1]) for _ in range(nz)] for _ in range(ns)]
+    rad = [r.choice([0.5, 1, 1.5]) for _ in range(ns)]
+    scl = [[r.choice([1, 1, 0.5, 2]) for _ in range(nz)] for _ in range(ns)]
+    cut = [r.random() < 0.4 for _ in range(ns)]
+    ubar = r.choice([4, 6.25, 9])
+    mean = r.choice(['box', 'eq', 'ball', 'none'])
+    pmin = r.choice([None, 0.125, 0.25]) if ns > 1 else None
+    okind = r.choice(['max', 'max', 'biaffine'])
+    recourse = (not lifted) and r.random() < 0.4
+    erow = r.random() < 0.5
+    c = [g() for _ in range(nx)]
+    M = [[r.choice([0, 0.5, -0.5, 1]) for _ in range(nz)] for _ in range(nx)]
+    pieces = [([g() for _ in range(nx)], [r.choice([0, 0.5, -1, 1]) for _ in range(nz)], r.choice([0, 0.5, -0.5, 1])) for _ in range(r.choice([2, 3]))]
+    er = ([g() for _ in range(nx)], [[r.choice([0, 0.5, -0.5]) for _ in range(nz)] for _ in range(nx)])
+    sig = r.choice([0.5, 1.0, 2.0])
+    sq = [r.choice([1.0, 0.25, 4.0, 2.25]) for _ in range(ns)]      # exact squares: both coordinate systems of the rotated cone are rational
+
+    def desc(a):
+        p = a.scen(ns)
+        x = a.dvar(nx)
+        z = a.rvar(nz)
+        u = a.rvar(nz) if lifted else None
+        y = a.dvar(()) if recourse else None
+        if recourse:
+            a.aff(y, z)
+        F = a.ambiguity()
+        for s in range(ns):
+            if lifted:
+                a.supp(F, [s], a.le(sq[s] * a.square(z - A(cen[s])), u), a.le(u, ubar))
+            else:
+                cons = [a.le(a.norm(A(scl[s]) * (z - A(cen[s])), 2), rad[s])]
+                if cut[s]:
+                    cons.append(a.ge(z[0], cen[s][0] - 0.25 * rad[s]))
+                a.supp(F, [s], *cons)
+        lo = [min(cen[s][j] for s in range(ns)) - 0.25 for j in range(nz)]
+        hi = [max(cen[s][j] for s in range(ns)) + 0.25 for j in range(nz)]
+        mid = [(l + h) / 2 for l, h in zip(lo, hi)]
+        if lifted:
+            a.expt(F, None, a.ge(a.Ez(z), A(lo)), a.le(a.Ez(z), A(hi)), a.le(a.Ez(u), sig + 0.5))
+        elif mean == 'box':
+            a.expt(F, None, a.ge(a.Ez(z), A(lo)), a.le(a.Ez(z), A(hi)))
+        elif mean == 'eq' and ns == 1:
+            a.expt(F, None, a.eq(a.Ez(z), A(cen[0])))
+        elif mean == 'ball':
+            a.expt(F, None, a.le(a.norm(a.Ez(z) - A(mid), 2), 0.75))
+        if pmin is not None:
+            a.prob(F, a.ge(p, pmin))
+        lin = a.sum(A(c) * x)
+        if okind == 'biaffine':
+            obj = lin + x @ A(M) @ z
+        else:
+            obj = a.maxof(*[a.sum(A(pc) * x) + a.sum(A(pz) * z) + p0 for pc, pz, p0 in pieces])
+        if recourse:
+            obj = obj + 0.5 * y if okind == 'biaffine' else obj
+        a.minsup(a.E(obj), F)
+        if erow:
+            a.st(a.le(a.E(a.sum(A(er[0]) * x) + x @ A(er[1]) @ z), 4.0))
+        if recourse:
+            a.st(a.ge(y, a.sum(z) - a.sum(x)))
+            a.st(a.ge(y, 0.0))
+            a.st(a.le(y, 12.0))
+        a.st(a.ge(x, -2.0))
+        a.st(a.le(x, 2.0))
+    desc.__name__ = 'randsoc%d' % seed
+    return desc
+
+
 def lookup(name):
     """Member by name: curated members or 'rand<seed>'."""
     M = members()
@@ -731,6 +826,8 @@ def lookup(name):
         return chain_member(int(mm.group(1)), mm.group(2))
     if name.startswith('randkl'):
         return random_kl_member(int(name[6:]))
+    if name.startswith('randsoc'):
+        return random_soc_member(int(name[7:]))
     if name.startswith('rand'):
         return random_member(int(name[4:]))
     raise KeyError(name)
